@@ -19,7 +19,9 @@
 (*                   addition formula), Da, Dl, antisymmetry, dV, V, Sigma_crit,  *)
 (*                   distmod as equations between recorded quantities             *)
 (*   5. CEds         Einstein-de Sitter rational anchors (absolute scale)         *)
-(*   6. CDispatch    argument-shape dispatch of the vectorised entry points       *)
+(*   6. CDispatchSet argument-representation dispatch of the vectorised entry     *)
+(*                   points (python / numpy scalars, sequences, ndarrays of every *)
+(*                   element type, byte order and layout)                         *)
 (*   7. CFailCopy    copy / copy.copy / deepcopy / pickle chains                  *)
 (*                                                                                *)
 (* Identities are DATA (expression trees over calls of the object under test).    *)
@@ -343,29 +345,56 @@ CFailScalar(r) ==
                   IN tol >= 0 /\ ~(good(id.name) \/ (id.alt # "" /\ good(id.alt)))}}
 
 \* ---------------------------------------------------------------------------------
-\* 6. argument-shape dispatch.  A shape is [kind, len]; kind "scalar" (len 0), "absent"
-\*    (one-argument quantities) or an array-like kind with len >= 1.  The result pairs
-\*    element i with <<index into first argument, index into second>> (0 = the scalar).
+\* 6. argument-representation dispatch.  A redshift argument is a representation
+\*      [cls, dt, lay, len]
+\*    cls  "pyfloat" | "pyint" | "npscalar"            scalars (len 0)
+\*         "list" | "tuple"                           python sequences, dt "float" | "int"
+\*         "ndarray"                                  dt  f8 f4 i8 i4 >f8 >f4 >i8 (">" = not the machine's byte order)
+\*                                                    lay contig | strided | reversed | zerod (0-d, one value, len 0)
+\*                                                        | f2d (Fortran-ordered, shape (2, len))
+\*         "absent"                                   second argument of a one-argument quantity
+\*    The result pairs element i with <<index into the first argument's value table, index into the second's>>
+\*    (0 = the scalar value).  A 2-d array is taken in C (row-major) order; its 2 len values cycle through the
+\*    3-entry value table.  Where the statement is silent - whether a 0-d array counts as a scalar or as an array
+\*    of length 1 - every reading is allowed: CDispatchSet is the SET of allowed outcomes.
 CTwoArg == {"Dc", "Dm", "Da", "Dl", "sigmacritinv"}
 COneArg == {"Ez_inverse", "dV", "distmod"}
-CIsArr(s) == s.kind \notin {"scalar", "absent"}
+CScalarCls == {"pyfloat", "pyint", "npscalar"}
+CRep(cls, dt, lay, len) == [cls |-> cls, dt |-> dt, lay |-> lay, len |-> len]
+CAbsent == CRep("absent", "na", "na", 0)
+CIsScalarRep(s) == s.cls \in CScalarCls \cup {"absent"}
+CIsZeroD(s) == s.cls = "ndarray" /\ s.lay = "zerod"
+CIs2D(s)    == s.cls = "ndarray" /\ s.lay = "f2d"
 
-CDispatch(sa, sb) ==
-    IF ~CIsArr(sa) /\ ~CIsArr(sb) THEN [kind |-> "scalar", pairs |-> <<<<0, 0>>>>]
-    ELSE IF CIsArr(sa) /\ CIsArr(sb) /\ sa.len # sb.len THEN [kind |-> "rejected", pairs |-> <<>>]
-    ELSE LET n == IF CIsArr(sa) THEN sa.len ELSE sb.len
-         IN [kind |-> "array",
-             pairs |-> [i \in 1..n |-> <<IF CIsArr(sa) THEN i ELSE 0, IF CIsArr(sb) THEN i ELSE 0>>]]
+\* effective lengths a representation may be given (0 = scalar)
+CLenSet(s) == IF CIsScalarRep(s) THEN {0}
+              ELSE IF CIsZeroD(s) THEN {0, 1}
+              ELSE IF CIs2D(s) THEN {2 * s.len}
+              ELSE {s.len}
+\* index into the value table for result element i
+CIdx(s, i) == IF CIsScalarRep(s) THEN 0
+              ELSE IF CIsZeroD(s) THEN 1
+              ELSE IF CIs2D(s) THEN ((i - 1) % 3) + 1
+              ELSE i
+
+COutcome(sa, sb, la, lb) ==
+    IF la = 0 /\ lb = 0 THEN [kind |-> "scalar", pairs |-> << <<CIdx(sa, 1), CIdx(sb, 1)>> >>]
+    ELSE IF la > 0 /\ lb > 0 /\ la # lb THEN [kind |-> "rejected", pairs |-> <<>>]       \* mismatched lengths
+    ELSE [kind |-> "array", pairs |-> [i \in 1..VMax2(la, lb) |-> <<CIdx(sa, i), CIdx(sb, i)>>]]
+CDispatchSet(sa, sb) == {COutcome(sa, sb, la, lb) : la \in CLenSet(sa), lb \in CLenSet(sb)}
 
 \* r = [q, sa, sb, pairs (those the harness compared against), obs = [kind, len, eq : Seq(BOOLEAN)]]
+\* eq[i]: result element i is bit-identical to the scalar call on the VALUES pairs[i] points at
 CFailDispatch(r) ==
-    LET e == CDispatch(r.sa, r.sb) IN
-    IF e.kind = "rejected" THEN (IF r.obs.kind = "rejected" THEN {} ELSE {"mismatched_lengths_not_rejected"})
-    ELSE IF r.obs.kind = "rejected" THEN {"unexpected_rejection"}
-    ELSE IF r.obs.kind # e.kind THEN {"result_kind"}
-    ELSE IF r.pairs # e.pairs THEN {"harness_pairs_mismatch"}
-    ELSE IF r.obs.len # Len(e.pairs) THEN {"result_length"}
-    ELSE IF \A i \in DOMAIN r.obs.eq : r.obs.eq[i] THEN {} ELSE {"element_ne_scalar"}
+    LET A    == CDispatchSet(r.sa, r.sb)
+        live == {e \in A : e.kind # "rejected"}
+        fit  == {e \in live : e.kind = r.obs.kind /\ Len(e.pairs) = r.obs.len}
+    IN IF r.obs.kind = "rejected" THEN (IF live # A THEN {} ELSE {"unexpected_rejection"})
+       ELSE IF live = {} THEN {"mismatched_lengths_not_rejected"}
+       ELSE IF ~\E e \in live : e.kind = r.obs.kind THEN {"result_kind"}
+       ELSE IF fit = {} THEN {"result_length"}
+       ELSE IF ~\E e \in fit : e.pairs = r.pairs THEN {"harness_pairs_mismatch"}
+       ELSE IF Len(r.obs.eq) = r.obs.len /\ \A i \in DOMAIN r.obs.eq : r.obs.eq[i] THEN {} ELSE {"element_ne_scalar"}
 
 \* ---------------------------------------------------------------------------------
 \* 7. copies.  r = [args, chain : Seq(kind), err, rep0, steps : Seq([err, rep, same_params, same_dist])]
